@@ -144,7 +144,13 @@ pub fn drain(w: &mut World, bank: &Bank, p: usize, acc: &mut Acc) -> Vec<(String
     }
     for i in idx {
         let Some(pos) = bank.data(&w.positions[i].position).and_then(codec::Position::decode) else { continue };
-        if w.positions[i].locked {
+        // the bank is the truth: this runs before the workload's own bookkeeping has seen the instruction just executed
+        // (a reposition changes the range, a lock freezes the position token account: state byte 108 == 2)
+        w.positions[i].lower = pos.tick_lower_index;
+        w.positions[i].upper = pos.tick_upper_index;
+        let frozen = bank.data(&w.positions[i].token_account).map(|d| d.len() > 108 && d[108] == 2).unwrap_or(false);
+        if w.positions[i].locked || frozen {
+            acc.count("drain_skipped_locked_positions");
             continue;
         }
         if pos.liquidity > 0 {
